@@ -100,6 +100,19 @@ func newCancelCtx(parent Context) *cancelCtx {
 				pc.children = append(pc.children, c)
 			}
 		}
+	} else if d := parent.Done(); d != nil {
+		// a context type of the caller's own: like the real package, watch its Done channel from a
+		// thread of its own and pass the end on
+		if d.IsClosed() {
+			c.cancelCause(parent.Err(), nil)
+		} else {
+			mc.GoNamed("context-propagation", func() {
+				mc.WaitUntil("context-propagation", func() bool { return d.IsClosed() || c.err != nil })
+				if c.err == nil {
+					c.cancelCause(parent.Err(), nil)
+				}
+			})
+		}
 	}
 	return c
 }
